@@ -122,22 +122,14 @@ pub fn class_ops(c: &str) -> &'static [u32] {
 pub fn class_inst(g: &Gram, c: &str, rng: &mut Rng, ctx: &mut Ctx) -> SInst {
     let gen = Gen { g };
     let op = *rng.pick(class_ops(c));
-    // keep context-dependent literals self-contained: unknown result type => one word
+    // keep context-dependent literals self-contained (no declaration is emitted along): undeclared type => one word
     let mut local = Ctx::new();
     local.next_id = ctx.next_id;
-    let mut i = gen.inst(op, rng, &mut local, &Plan::random());
+    NO_CTX.with(|c| c.set(true));
+    let i = gen.inst(op, rng, &mut local, &Plan::random());
+    NO_CTX.with(|c| c.set(false));
     ctx.next_id = local.next_id;
-    if !local.decls.is_empty() {
-        // do not drag declarations along: regenerate with an undeclared type (1-word literals)
-        let mut tries = 0;
-        loop {
-            let mut l2 = Ctx::new();
-            l2.next_id = ctx.next_id;
-            i = gen.inst(op, rng, &mut l2, &Plan::random());
-            tries += 1;
-            if l2.decls.is_empty() || tries > 50 { break; }
-        }
-    }
+    assert!(local.decls.is_empty(), "vh: class_inst must not need declarations");
     i
 }
 
